@@ -8,7 +8,7 @@ export GOFLAGS=-mod=mod GOPROXY=off GOSUMDB=off GOTOOLCHAIN=local CGO_ENABLED=1
 d=/verif/work/hxb-$sub
 rm -rf "$d"; mkdir -p "$d/hx"
 cp /verif/harness/go.mod "$d/"; cp /repo/go.sum "$d/"
-cp /verif/harness/hx/main.go /verif/harness/hx/util.go "$d/hx/"
+cp /verif/harness/hx/main.go /verif/harness/hx/util.go /verif/harness/hx/node.go /verif/harness/hx/txgen.go "$d/hx/"
 cp /verif/harness/hx/${sub}*.go "$d/hx/"
 (cd "$d" && go build -tags verif -o /verif/bin/hx-$sub ./hx)
 echo built /verif/bin/hx-$sub
